@@ -149,6 +149,18 @@ ZstIterOK(r) == /\ Len(r.steps) = 9
                 /\ r.count = TakenUpTo(r.steps, Len(r.steps))
                 /\ r.last_some
 
+\* the length-changing operations on such arrays (C09): result lengths relative to N, the small parts absolutely
+ZstSeqExpect == [append |-> <<1>>, prepend |-> <<1>>, pop_back |-> <<-1>>, pop_front |-> <<-1>>,
+                 split5 |-> <<-5>>, split5_ref |-> <<-5>>, concat3 |-> <<3>>, concat3_front |-> <<3>>,
+                 remove7 |-> <<-1>>, remove_last |-> <<-1>>, swap_remove7 |-> <<-1>>, swap_remove_last |-> <<-1>>,
+                 remove_at_n |-> <<>>, swap_remove_at_n |-> <<>>]
+ZstSeqOK(r) == /\ {r.ops[i].op : i \in DOMAIN r.ops} = DOMAIN ZstSeqExpect
+               /\ \A i \in DOMAIN r.ops :
+                     LET o == r.ops[i] IN
+                       /\ o.outs = ZstSeqExpect[o.op]
+                       /\ o.small = (IF o.op \in {"split5", "split5_ref"} THEN <<5>> ELSE <<>>)
+                       /\ o.panicked = (o.op \in {"remove_at_n", "swap_remove_at_n"})       \* index N is out of range
+
 HeapBackedKinds == {"box", "vec", "bslice"}
 NeedsBlock(v) == cfg.rec /\ v.kind \in HeapBackedKinds /\ Len(v.items) > 0 /\ ~Anonymous
 HeapInv ==
